@@ -1,0 +1,12 @@
+//go:build verif
+// +build verif
+
+package xpoa
+
+// VerifMinerScheduling exposes the package-private slot schedule to the
+// verification harness (build tag verif only): it evaluates minerScheduling
+// for a schedule with exactly the given parameters and validator count.
+func VerifMinerScheduling(period, blockNum, timestamp int64, length int) (int64, int64, int64) {
+	s := &xpoaSchedule{period: period, blockNum: blockNum}
+	return s.minerScheduling(timestamp, length)
+}
